@@ -88,6 +88,29 @@ def _val(v):
         return ("Bool", False)
     if z3.is_string_value(v):
         return ("Str", v.as_string())
+    if z3.is_seq(v):
+        out = []
+
+        def walk(t):
+            if z3.is_app(t):
+                k = t.decl().kind()
+                if k == z3.Z3_OP_SEQ_CONCAT:
+                    for c in t.children():
+                        walk(c)
+                    return
+                if k == z3.Z3_OP_SEQ_UNIT:
+                    e = _val(t.children()[0])
+                    out.append(e[1] if e[0] in ("Int", "Real") else Fraction(0))
+                    return
+                if k == z3.Z3_OP_SEQ_EMPTY:
+                    return
+            raise ValueError(f"unexpected sequence value {t}")
+
+        try:
+            walk(z3.simplify(v))
+            return ("Seq", out)
+        except ValueError:
+            return ("Other", str(v))
     return ("Other", str(v))
 
 
